@@ -3,6 +3,7 @@ package c10
 import (
 	"bytes"
 	"crypto/aes"
+	"crypto/ecdh"
 	"crypto/sha256"
 	"crypto/sha512"
 	"encoding/hex"
@@ -14,12 +15,27 @@ import (
 	"github.com/pion/dtls/v3/internal/zzverif/lib/pbt"
 	"github.com/pion/dtls/v3/internal/zzverif/lib/ref"
 	"github.com/pion/dtls/v3/pkg/crypto/ccm"
+	"github.com/pion/dtls/v3/pkg/crypto/elliptic"
 	"github.com/pion/dtls/v3/pkg/crypto/keyschedule"
 	"github.com/pion/dtls/v3/pkg/crypto/prf"
 	"github.com/pion/dtls/v3/pkg/protocol"
 	"github.com/pion/dtls/v3/pkg/protocol/recordlayer"
 	"pgregory.net/rapid"
 )
+
+// ecdhScalar derives a valid private scalar for the curve from the case's seed.
+func ecdhScalar(c ecdh.Curve, seed []byte, salt byte) []byte {
+	n := 32
+	if c == ecdh.P384() {
+		n = 48
+	}
+	h := sha512.Sum512(append([]byte{salt}, seed...))
+	out := append([]byte(nil), h[:n]...)
+	out[0] &= 0x3f // below the group order for the NIST curves
+	out[n-1] |= 1
+
+	return out
+}
 
 func TestMain(m *testing.M) { pbt.Main(m, "C10") }
 
@@ -119,6 +135,32 @@ func runPRF(c PRFCase, r *pbt.R) {
 		r.Failf("C10|prf|psk-premaster", "PSK premaster secret differs from RFC 4279 section 2")
 
 		return
+	}
+	// RFC 5489 section 2: premaster = len(Z) || Z || len(psk) || psk with Z from an independent ECDH
+	for _, cv := range []struct {
+		id elliptic.Curve
+		c  ecdh.Curve
+	}{{elliptic.X25519, ecdh.X25519()}, {elliptic.P256, ecdh.P256()}, {elliptic.P384, ecdh.P384()}}[len(seed)%3:][:1] {
+		a, errA := cv.c.NewPrivateKey(ecdhScalar(cv.c, seed, 1))
+		b, errB := cv.c.NewPrivateKey(ecdhScalar(cv.c, seed, 2))
+		if errA != nil || errB != nil {
+			continue
+		}
+		z, err := a.ECDH(b.PublicKey())
+		if err != nil {
+			continue
+		}
+		got, err := prf.EcdhePSKPreMasterSecret(secret, b.PublicKey().Bytes(), a.Bytes(), cv.id)
+		if err != nil {
+			r.Failf("C10|prf|ecdhe-psk-premaster", "EcdhePSKPreMasterSecret(%v): %v", cv.id, err)
+
+			return
+		}
+		if !bytes.Equal(got, ref.ECDHEPSKPreMaster(secret, z)) {
+			r.Failf("C10|prf|ecdhe-psk-premaster", "ECDHE_PSK premaster secret differs from RFC 5489 section 2 (curve %v, psk %d bytes)", cv.id, len(secret))
+
+			return
+		}
 	}
 	r.NonTrivial()
 	r.Key(fmt.Sprintf("%s|%d|%d|%d|%d|%d|%d", c.Hash, len(secret), len(seed), c.N, c.Mac, c.Key, c.IV))
